@@ -68,12 +68,16 @@ pub fn serialize_root(
     xml += "<?xml version=\"1.0\" encoding=\"UTF-8\"?>\n";
     xml += "<e57Root type=\"Structure\" ";
     for ext in extensions {
-        // The URL is written into an XML attribute and needs to be escaped
+        // The URL is written into an XML attribute and needs to be escaped,
+        // literal white space other than blanks is normalized to blanks by XML parsers
         let url = ext
             .url
             .replace('&', "&amp;")
             .replace('<', "&lt;")
-            .replace('"', "&quot;");
+            .replace('"', "&quot;")
+            .replace('\t', "&#9;")
+            .replace('\n', "&#10;")
+            .replace('\r', "&#13;");
         xml += &format!("xmlns:{}=\"{}\" ", ext.namespace, url);
     }
     xml += "xmlns=\"http://www.astm.org/COMMIT/E57/2010-e57-v1.0\">\n";
